@@ -148,6 +148,36 @@ class FP64Alg:
         f = z3.Function('fp_' + n, self.S, self.S, self.S); return Fl(f(a.v, b.v))
     def to_int(self, a, lo, hi): raise NotImplementedError('FloatToInt under FP64')
 
+class FPUAlg(FP64Alg):
+    """FP64 values with *uninterpreted* arithmetic: + - * / fma return arbitrary doubles (congruent: the same
+    expression is the same value), comparisons / is_finite / is_nan keep their IEEE meaning.  The only IEEE facts
+    used are emitted as lemma instances: a finite sum/difference has finite operands; x*c, c finite non-zero:
+    finite product => finite x.  A sound over-approximation for properties that must hold for every value."""
+    name = 'FP64u'
+    def __init__(self):
+        FP64Alg.__init__(self); S = self.S
+        self.f = {n: z3.Function('u_' + n, S, S, S) for n in ('add', 'sub', 'mul', 'div')}
+        self.f3 = z3.Function('u_fma', S, S, S, S)
+        self.lemmas = []
+    def _fin(self, t): return z3.And(z3.Not(z3.fpIsNaN(t)), z3.Not(z3.fpIsInf(t)))
+    def add(self, a, b):
+        t = self.f['add'](a.v, b.v); self.lemmas.append(z3.Implies(self._fin(t), z3.And(self._fin(a.v), self._fin(b.v)))); return Fl(t)
+    def sub(self, a, b):
+        t = self.f['sub'](a.v, b.v); self.lemmas.append(z3.Implies(self._fin(t), z3.And(self._fin(a.v), self._fin(b.v)))); return Fl(t)
+    def mul(self, a, b): return Fl(self.f['mul'](a.v, b.v))
+    def div(self, a, b): return Fl(self.f['div'](a.v, b.v))
+    def fma(self, a, b, c): return Fl(self.f3(a.v, b.v, c.v))
+    def absf(self, a): return Fl(z3.fpAbs(a.v))
+    def neg(self, a): return Fl(z3.fpNeg(a.v))
+    @staticmethod
+    def prove_lemmas():
+        """discharge the IEEE facts behind the lemma instances with bit-precise FP semantics"""
+        S = z3.Float64(); a, b = z3.FP('a', S), z3.FP('b', S); rm = z3.RNE(); out = []
+        fin = lambda t: z3.And(z3.Not(z3.fpIsNaN(t)), z3.Not(z3.fpIsInf(t)))
+        for nm, t in (('add', z3.fpAdd(rm, a, b)), ('sub', z3.fpSub(rm, a, b))):
+            s = z3.Solver(); s.set('timeout', 120000); s.add(fin(t), z3.Not(z3.And(fin(a), fin(b)))); out.append((nm, s.check() == z3.unsat))
+        return out
+
 def _fma(a, b, c):
     if any(math.isnan(x) or math.isinf(x) for x in (a, b, c)):
         try: return a * b + c
